@@ -49,7 +49,15 @@ class RemoteValueScaling(RemoteValue[int]):
 
     def to_knx(self, value: float) -> DPTArray:
         """Convert value to payload."""
-        knx_value = self._calc_to_knx(self.range_from, self.range_to, value)
+        try:
+            knx_value = self._calc_to_knx(self.range_from, self.range_to, value)
+        except (ValueError, TypeError, OverflowError) as err:
+            raise ConversionError(
+                "Could not convert value",
+                value=value,
+                device_name=self.device_name,
+                feature_name=self.feature_name,
+            ) from err
         if not 0 <= knx_value <= 255:
             raise ConversionError(
                 "Value out of range",
